@@ -35,7 +35,8 @@ Lemma ex_nonvacuous :
    List.length (tls_writes KNego ex1_events) = 1%nat /\ List.length (tls_writes KAuth ex1_events) = 1%nat /\
    List.length (tls_writes KAuthInfo ex1_events) = 1%nat /\
    tls_writes KInfo ex1_events = [ex1_info_frame] /\
-   info_decodes ex1_cfg [22495] [85; 115; 233; 114] [112; 228; 128512; 119; 48; 114; 100] ex1_info_frame) /\
+   info_decodes (trace_of (ex_x ex1_upper Debug ex1_post) ex1_cfg ex1_env (ex1_cc :: ex1_post)) ex1_cfg
+               [22495] [85; 115; 233; 114] [112; 228; 128512; 119; 48; 114; 100] ex1_info_frame) /\
   (* restricted admin with an NT hash *)
   (out (ex_x ex2_upper Release ex2_post) ex2_cfg ex2_env (ex2_cc :: ex2_post) = ex2_events /\
    strings_ok ex2_cfg /\
@@ -43,16 +44,20 @@ Lemma ex_nonvacuous :
    raw_writes ex2_events = [cr_frame 3 1] /\
    List.length (tls_writes KAuthInfo ex2_events) = 1%nat /\
    tls_writes KInfo ex2_events = [ex2_info_frame] /\
-   info_decodes ex2_cfg [] [] [] ex2_info_frame).
+   info_decodes (trace_of (ex_x ex2_upper Release ex2_post) ex2_cfg ex2_env (ex2_cc :: ex2_post)) ex2_cfg [] [] [] ex2_info_frame /\
+   (* the server of this run announces the I/O channel id 1007: the run returns it, and the Client Info travels on it *)
+   (exists sd, result_of (ex_x ex2_upper Release ex2_post) ex2_cfg ex2_env (ex2_cc :: ex2_post) = Ok (1004, sd) /\ Connect.global_id sd = 1007) /\
+   (exists i, StrictPdu.strict_parse ex2_info_frame = Some (StrictPdu.PClientInfo 1004 1007 i))).
 Proof.
   split.
   - split; [exact (f_equal snd ex1_runs)|].
     split; [unfold strings_ok; cbn; repeat split; try (apply scalars_ok; reflexivity); vm_compute; discriminate|].
     repeat (split; [reflexivity|]).
-    exists 1004, 524292. split; [lia|]. vm_compute. reflexivity.
+    exists 3, 1003, 248, 524292. split; [vm_compute; auto 20|]. split; [vm_compute; discriminate|]. vm_compute. reflexivity.
   - split; [exact (f_equal snd ex2_runs)|].
     split; [unfold strings_ok; cbn; repeat split; try (apply scalars_ok; reflexivity); vm_compute; discriminate|].
     split; [reflexivity|]. split; [eexists; reflexivity|].
     repeat (split; [reflexivity|]).
-    exists 1004, 524289. split; [lia|]. vm_compute. reflexivity.
+    split; [exists 3, 1007, 32, 524289; split; [vm_compute; auto 20|]; split; [vm_compute; discriminate|]; vm_compute; reflexivity|].
+    split; [eexists; split; vm_compute; reflexivity|]. eexists. vm_compute. reflexivity.
 Qed.
